@@ -111,6 +111,18 @@ Proof.
   - apply Forall_forall. trivial.
 Qed.
 
+(* ------------------------------------------------------------------ cross-file evidence in the parallel path *)
+Lemma par_evidence_gates_spec : par_evidence_gates = lint_gates.
+Proof. reflexivity. Qed.
+
+(* the cross-file rules see exactly the files that reach the rules in lint_file: an excluded or ignored file contributes nothing *)
+Theorem evidence_exact q abs pats cp ps : evidence_files q abs pats cp ps = filter (linted q abs pats cp) ps.
+Proof. unfold evidence_files, linted. now rewrite par_evidence_gates_spec. Qed.
+
+Corollary evidence_of_parallel_dir_run q recursive abs sp rel t s :
+  evidence_files q abs (load_patterns q s) (chk_dir q sp rel) (walk (par_collect_recursive recursive) rel t) = run_dir_par q recursive abs sp rel t s.
+Proof. apply evidence_exact. Qed.
+
 (* an absolute path string: "/" dirs "/" p -- injective on well-formed project-relative paths *)
 Definition abs_key (dirs : list string) (p : list string) : string := ("/" ++ pjoin (dirs ++ p))%string.
 
